@@ -22,6 +22,10 @@ pub const OUT_ADD: u64 = 64 << 10;
 pub const BACKSTOP: u64 = 16384;
 pub const GROWTH: f64 = 3.0;
 pub const GROWTH_MIN_INPUT: u64 = 4096;
+/// wall-time law (ladder only): time per byte of (input + result + templates) at a size where a call takes >= 20 ms may
+/// not exceed 10x its minimum at a smaller size; candidates are re-measured alone (one worker) twice before they count
+pub const TIME_GROWTH: f64 = 10.0;
+pub const TIME_FLOOR_US: u64 = 20_000;
 
 fn cache_wire_size(p: &NetflowParser) -> u64 {
     let s = snap(p);
@@ -60,6 +64,10 @@ pub fn families(tier: &str) -> Vec<(Arc<dyn Family>, Option<Vec<(String, usize)>
     vec![(f, Some(labels)), (family_a_v9(body), None), (family_a_ipfix(body), None), (family_e(false), None), (family_e(true), None), (family_a2(false, 8), None), (family_a2(true, 8), None)]
 }
 
+fn clone_cfg(c: &SweepCfg) -> SweepCfg {
+    SweepCfg { binary: c.binary.clone(), mode: c.mode.clone(), tier: c.tier.clone(), family_index: c.family_index, workers: c.workers, horizon: c.horizon, budget: c.budget, chunk: c.chunk }
+}
+
 fn per_eval_laws(m: &[u64]) -> Vec<(&'static str, String)> {
     let (x, w, t, pk, r) = (m[0], m[1], m[2], m[3], m[4]);
     let mut v = vec![];
@@ -79,6 +87,8 @@ struct C15Space {
     cfg: SweepCfg,
     fam: Arc<dyn Family>,
     labels: Option<Vec<(String, usize)>>,
+    /// include wall-time candidates in issues_of (only in the isolated re-measurement)
+    time_law: bool,
 }
 impl C15Space {
     fn where_(&self, idx: u64) -> String {
@@ -139,7 +149,44 @@ impl C15Space {
                 }
             }
         }
+        if self.time_law {
+            for (sig, idx, d) in self.time_candidates(r) {
+                add(sig, idx, d);
+            }
+        }
         m
+    }
+    /// wall-time growth candidates per ladder rung
+    fn time_candidates(&self, r: &SweepResult) -> Vec<(String, u64, String)> {
+        let mut out = vec![];
+        if let Some(labels) = &self.labels {
+            let mut by_rung: BTreeMap<&str, Vec<(usize, u64, u64, u64)>> = BTreeMap::new();
+            for (idx, ms) in &r.meas {
+                let (name, n) = &labels[*idx as usize];
+                by_rung.entry(name.as_str()).or_default().push((*n, (ms[0] + ms[4] + ms[1]).max(1), ms[5], *idx));
+            }
+            for (name, mut pts) in by_rung {
+                pts.sort_by_key(|p| p.0);
+                let mut best: Option<(usize, f64)> = None;
+                for (n, size, wall, idx) in pts {
+                    if size < GROWTH_MIN_INPUT {
+                        continue;
+                    }
+                    let ratio = wall.max(1) as f64 / size as f64;
+                    if let Some((n0, r0)) = best {
+                        if wall >= TIME_FLOOR_US && ratio > TIME_GROWTH * r0 {
+                            out.push((format!("time-growth-law/{}", name), idx, format!("wall time per byte of (input + result + templates) grows from {:.4} us at n={} to {:.4} us at n={} ({} us for this call): super-linear time", r0, n0, ratio, n, wall)));
+                        }
+                        if ratio < r0 {
+                            best = Some((n, ratio));
+                        }
+                    } else {
+                        best = Some((n, ratio));
+                    }
+                }
+            }
+        }
+        out
     }
 }
 impl Space for C15Space {
@@ -160,8 +207,11 @@ impl Space for C15Space {
             }
             None => (idx, idx + 1),
         };
-        let r = run_range(&self.cfg, &self.fam.name(), lo, hi);
-        Eval { key: 0, transitions: 0, issues: self.issues_of(&r).into_iter().map(|(s, (_, _, d))| issue(s, d)).collect(), tags: vec![] }
+        // measured alone (one worker), with the wall-time law on
+        let solo = SweepCfg { workers: 1, chunk: 1, ..clone_cfg(&self.cfg) };
+        let r = run_range(&solo, &self.fam.name(), lo, hi);
+        let me = C15Space { cfg: clone_cfg(&self.cfg), fam: self.fam.clone(), labels: self.labels.clone(), time_law: true };
+        Eval { key: 0, transitions: 0, issues: me.issues_of(&r).into_iter().map(|(s, (_, _, d))| issue(s, d)).collect(), tags: vec![] }
     }
     fn describe(&self, idx: u64) -> Value {
         let mut d = self.fam.case(idx).describe();
@@ -180,7 +230,7 @@ pub fn replay_spaces(tier: &str) -> Vec<Box<dyn Space>> {
         .enumerate()
         .map(|(fi, (fam, labels))| {
             let cfg = SweepCfg { binary: binary.clone(), mode: "c15".into(), tier: tier.to_string(), family_index: fi, workers: 4, horizon: Duration::from_secs(120), budget: 4 << 30, chunk: 1 };
-            Box::new(C15Space { cfg, fam, labels }) as Box<dyn Space>
+            Box::new(C15Space { cfg, fam, labels, time_law: true }) as Box<dyn Space>
         })
         .collect()
 }
@@ -205,8 +255,41 @@ pub fn run(tier: &str) -> i32 {
             chunk: if labels.is_some() { 1 } else { (size / 256).clamp(1, 20_000) },
         };
         let r = run_range(&cfg, &fam.name(), 0, size);
-        let sp = C15Space { cfg, fam, labels };
-        let issues = sp.issues_of(&r);
+        let sp = C15Space { cfg, fam, labels, time_law: false };
+        let mut issues = sp.issues_of(&r);
+        // wall-time law: candidates from the parallel run are re-measured alone, twice, and count only if both agree
+        let cands = sp.time_candidates(&r);
+        let mut unconfirmed_time = 0u64;
+        if let Some(labels) = &sp.labels {
+            let mut rungs: Vec<String> = cands.iter().map(|c| c.0.clone()).collect();
+            rungs.sort();
+            rungs.dedup();
+            for sig in rungs {
+                let name = sig.trim_start_matches("time-growth-law/");
+                let lo = labels.iter().position(|x| x.0 == name).unwrap() as u64;
+                let hi = labels.iter().rposition(|x| x.0 == name).unwrap() as u64 + 1;
+                let mut solo = SweepCfg { workers: 1, ..clone_cfg(&sp.cfg) };
+                solo.chunk = 1;
+                let mut agree = 0;
+                let mut last = None;
+                for _ in 0..2 {
+                    let rr = run_range(&solo, &sp.fam.name(), lo, hi);
+                    if let Some(c) = sp.time_candidates(&rr).into_iter().find(|c| c.0 == sig) {
+                        agree += 1;
+                        last = Some(c);
+                    }
+                }
+                match (agree, last) {
+                    (2, Some((s2, idx, d))) => {
+                        issues.insert(s2, (1, idx, d));
+                    }
+                    _ => unconfirmed_time += 1,
+                }
+            }
+        }
+        if unconfirmed_time > 0 {
+            eprintln!("[C15] {} wall-time candidate(s) did not repeat when measured alone and were dropped", unconfirmed_time);
+        }
         for (_, ms) in &r.meas {
             if !per_eval_laws(ms).is_empty() {
                 continue; // maxima are reported over law-abiding evaluations only
@@ -235,7 +318,7 @@ pub fn run(tier: &str) -> i32 {
         tier: tier.into(),
         level: "model_checking",
         rule: "every point of the scale ladder (every structural repetition at n in {1..16, 24, 32, ... x1.33/1.5 ..., max-1, max} up to the 65 535-byte datagram limit; quick: 12 sizes per rung) and every case of the V9 and IPFIX grammar products is executed in an isolated worker whose counting allocator measures T (bytes requested during the call), Pk (peak live above entry), R (bytes live at return), with |x| and W (wire size of cached templates). Laws: Pk <= 8|x| + 2R + 64W + 256 KiB; R <= 2048(|x|+W) + 64 KiB; T <= 16384(|x|+R); and per rung, T/(|x|+R) at any n with |x| >= 4 KiB may not exceed 3x its minimum at a smaller such n (super-linear growth). Distinct by (T, Pk, elements)".into(),
-        bounds: json!({"peak_law": "Pk <= 8|x| + 2R + 64W + 262144", "output_law": "R <= 2048(|x|+W) + 65536", "backstop": "T <= 16384(|x|+R)", "growth_law": "T/(|x|+R) <= 3 x min at smaller n, |x| >= 4096", "live_heap_budget": 4u64<<30}),
+        bounds: json!({"peak_law": "Pk <= 8|x| + 2R + 64W + 262144", "output_law": "R <= 2048(|x|+W) + 65536", "backstop": "T <= 16384(|x|+R)", "growth_law": "T/(|x|+R) <= 3 x min at smaller n, |x| >= 4096", "time_growth_law": "wall/(|x|+R+W) <= 10 x min at smaller n for calls >= 20 ms, confirmed by two isolated re-measurements", "live_heap_budget": 4u64<<30}),
         assumptions: vec!["constants are chosen (about 3x head-room over the measured benign maxima, which are reported under measured_maxima)".into(), "the growth law compares against the minimum ratio at smaller sizes rather than consecutive pairs, because amortised Vec doubling makes consecutive ratios jump by up to 1.5x".into()],
         trusted_base: vec!["alloc.rs counting allocator".into(), "sweep.rs".into()],
         required_tags: vec![],
